@@ -18,6 +18,13 @@ class Infra(Exception):
     """Infrastructure trouble (toolchain, disk): exit 2, never a VIOLATION line."""
 
 
+class Unbuildable(Exception):
+    """A harness no longer compiles against the library sources of the tree under check (the data representation or an
+    interface the correspondence run needs has changed).  That is not infrastructure trouble: the tie between model and
+    code cannot be re-established on this tree, so the property is no longer shown to hold -> `check` records a broken
+    correspondence and reports VIOLATION ... no-failing-input-found (unless a public-interface build found an input)."""
+
+
 def sh(cmd, timeout=None, input=None, cwd=None, env=None):
     e = dict(os.environ)
     if env:
@@ -88,6 +95,7 @@ class Ctx:
         self.tmp = tempfile.mkdtemp(prefix=f'librfn-verif-{pid}-')
         self.violations = []      # (replay_path, no_input_found)
         self.known = []           # text of KNOWN-FINDING lines
+        self.blackbox = False     # harness rebuilt against the public interface only (cc_harness)
         self.broken = []          # names of obligations/correspondences that no longer check
         self.cov = {'evaluations': 0, 'distinct_nontrivial': 0, 'rule': '', 'samples': [],
                     'obligations': 0, 'discharged': 0, 'checker_cmd': '', 'trusted_base': []}
@@ -238,6 +246,23 @@ class Ctx:
         if rc != 0:
             return None, o + e
         return os.path.join(self.tmp, out), o + e
+
+    def cc_harness(self, out, sources, flags=(), what='harness', **kw):
+        """Build a harness that also observes library internals.  If it does not compile (representation changed) rebuild
+        it with -DVERIF_BLACKBOX (public interface only; the harness prints `?` for what it cannot see) and record the
+        broken internal-state correspondence; the plugin then compares observable results only (`self.blackbox`)."""
+        self.blackbox = False
+        exe, log = self.cc(out, sources, flags, **kw)
+        if exe:
+            return exe
+        err = [l for l in log.split('\n') if 'error' in l][:2]
+        exe, log2 = self.cc(out, sources, list(flags) + ['-DVERIF_BLACKBOX'], **kw)
+        if exe:
+            self.blackbox = True
+            self.broken.append(f'correspondence on internal state: {what} no longer compiles against the library\'s data '
+                               f'representation ({"; ".join(e.strip()[-160:] for e in err)}); rebuilt against the public interface only')
+            return exe
+        raise Unbuildable(f'{what} does not compile against the tree under check: ' + log[-1200:])
 
     # One executable per model engine (lean/Exe<Engine>.lean): a source change that breaks the translation / model of
     # one unit must not take the model executables of unrelated properties down with it.
@@ -432,7 +457,7 @@ def split_histories(lines, sep='--'):
 
 
 def correspond(ctx, engine, harness_cmd, histories, spec=None, prefix=('reset',), timeout=600, label=None,
-               shrink=True, key_of=None, sep='--', valid=None):
+               shrink=True, key_of=None, sep='--', valid=None, norm=None):
     """Tie D: run the same histories (lists of op lines) through the harness built from /repo and through the
     Lean executable model (`librfn_model <engine>`), compare per history.
       impl != spec (or impl != model when the model is the proven-equal stand-in for the spec)  -> violation
@@ -448,8 +473,13 @@ def correspond(ctx, engine, harness_cmd, histories, spec=None, prefix=('reset',)
         if mo_ and mo_[-1] == '':
             mo_.pop()
         model = split_histories(mo_, sep)
+        if norm:                       # e.g. a public-interface-only harness build: lines about internals are masked on both sides
+            impl = [[norm(l) for l in x] for x in impl]; model = [[norm(l) for l in x] for x in model]
         return impl, model
     impl, model = run_both(histories)
+    if norm and spec:
+        spec0 = spec
+        spec = lambda h: [norm(l) for l in spec0(h)]
     npre = len(prefix)
     agreed = 0
     for i, h in enumerate(histories):
@@ -493,7 +523,7 @@ def correspond(ctx, engine, harness_cmd, histories, spec=None, prefix=('reset',)
     return agreed
 
 
-def replay_ops(ctx, path, engine, harness_cmd, spec=None, sep='--'):
+def replay_ops(ctx, path, engine, harness_cmd, spec=None, sep='--', norm=None):
     r = json.load(open(path))
     if 'ops' not in r:
         print('replay names a broken obligation, not an input:', r.get('obligation'))
@@ -507,6 +537,8 @@ def replay_ops(ctx, path, engine, harness_cmd, spec=None, sep='--'):
     while npre < len(r['ops']) and r['ops'][npre] == 'reset':
         npre += 1
     exp = (['ok'] * 0 + impl[:npre] + spec(r['ops'][npre:])) if spec else model
+    if norm:
+        impl = [norm(l) for l in impl]; exp = [norm(l) for l in exp]
     k = diff_streams(impl, exp)
     print('implementation:', impl[:40]); print('expected      :', exp[:40])
     print('SAME' if k is None else f'DIFFER at output {k}')
